@@ -78,6 +78,10 @@ struct Plan {
     pool: usize,
     ka_interval: u64,
     ka_timeout: u64,
+    /// Keep-alives are switched off (1 in 4 sampled runs): only faults the client can
+    /// see without them are injected (FIN, RST, bad version, unsolicited stream id), and
+    /// ka_interval / ka_timeout are 0 in the bounds.
+    ka_off: bool,
     request_timeout: Option<u64>,
     default_retry: bool,
     in_flight: usize,
@@ -127,7 +131,15 @@ pub fn run(req: &RunRequest) -> Value {
             hold: [20 * MS, 200 * MS, 2 * SEC][tape::choose("c10:hold", 3) as usize],
             rounds: if scripted { 1 } else { tape::range("c10:rounds", 1, 3) as usize },
             enumerated,
+            ka_off: false,
         };
+        let mut plan = plan;
+        if !scripted && tape::chance("c10:ka_off", 1, 4) {
+            plan.ka_off = true;
+            plan.ka_interval = 0;
+            plan.ka_timeout = 0;
+        }
+        let plan = plan;
         let mut cluster = Cluster::new("c10");
         for i in 0..plan.nodes {
             cluster.add_node("dc1", "r1", plan.shards, vec![(i as i64) * 1000 - 1000]);
@@ -281,8 +293,8 @@ async fn main(plan: Plan) -> Outcome {
         contact_nodes: vec![0],
         pool: PoolSize::PerHost(NonZeroUsize::new(plan.pool).unwrap()),
         coalescing: tape::choose("c10:coalescing", 3),
-        keepalive_interval: Some(Duration::from_nanos(plan.ka_interval)),
-        keepalive_timeout: Some(Duration::from_nanos(plan.ka_timeout)),
+        keepalive_interval: if plan.ka_off { None } else { Some(Duration::from_nanos(plan.ka_interval)) },
+        keepalive_timeout: if plan.ka_off { None } else { Some(Duration::from_nanos(plan.ka_timeout)) },
         request_timeout: plan.request_timeout.map(Duration::from_nanos),
         retry: Some(if plan.default_retry {
             Arc::new(DefaultRetryPolicy::new())
@@ -395,7 +407,11 @@ async fn main(plan: Plan) -> Outcome {
                         Some((o, k)) => (o, k),
                         None => (
                             tape::choose("c10:offset", 120) as usize,
-                            KINDS[tape::choose("c10:kind", KINDS.len() as u64) as usize],
+                            if plan.ka_off {
+                                [Kind::Fin, Kind::Rst, Kind::BadVersion, Kind::Unsolicited][tape::choose("c10:kind_loud", 4) as usize]
+                            } else {
+                                KINDS[tape::choose("c10:kind", KINDS.len() as u64) as usize]
+                            },
                         ),
                     };
                     needs |= inject(&mut w, victim, kind, offset, &mut doomed);
@@ -563,7 +579,7 @@ fn finish(mut out: Outcome, plan: &Plan, injected: Vec<String>, ok: u64, err: u6
     }
     out.sample = json!({
         "nodes": plan.nodes, "shards": plan.shards, "pool": plan.pool,
-        "keepalive_ms": [plan.ka_interval / MS, plan.ka_timeout / MS],
+        "keepalive_ms": [plan.ka_interval / MS, plan.ka_timeout / MS], "keepalive_off": plan.ka_off,
         "request_timeout_ms": plan.request_timeout.map(|t| t / MS),
         "default_retry": plan.default_retry, "in_flight": plan.in_flight,
         "hold_ms": plan.hold / MS, "rounds": plan.rounds,
